@@ -140,6 +140,91 @@ impl<K: KeyT, V: ValT> World<K, V> {
         out
     }
 
+    /// Make every model hold what its collection holds (after an interrupted call).
+    pub fn adopt_observed(&mut self, interrupted_clone_from: Option<crate::ops::Op>) -> Result<(), String> {
+        let cfg = self.cfg.clone();
+        let (mdst, sdst) = match interrupted_clone_from {
+            Some(crate::ops::Op::CloneFrom { dst, .. }) => (Some(dst as usize), None),
+            Some(crate::ops::Op::SCloneFrom { dst, .. }) => (None, Some(dst as usize)),
+            _ => (None, None),
+        };
+        for (mi, slot) in self.maps.iter_mut().enumerate() {
+            if mdst == Some(mi) {
+                // unspecified contents: replace the destination (see c07.rs)
+                let old = std::mem::replace(&mut slot.m, new_map::<K, V>(&cfg.map_hashers[mi], 0));
+                let r = call(|| sut(|| drop(old)));
+                if r.result.is_err() {
+                    return Err("dropping the destination of an interrupted clone_from panicked".to_string());
+                }
+                slot.model.clear();
+                slot.countdown = None;
+                continue;
+            }
+            let r = call(|| {
+                let mut m = std::collections::BTreeMap::new();
+                for (k, v) in sut(|| slot.m.iter()) {
+                    m.insert(k.kv(), MEntry { kid: k.oid(), vid: v.oid(), p: v.payload() });
+                }
+                m
+            });
+            match r.result {
+                Ok(m) => slot.model = m,
+                Err(p) => return Err(format!("panic while reading map {}: {:?}", mi, p)),
+            }
+            let st = slot.m.verif_state();
+            slot.countdown = if st.split && st.old_len > 0 { Some(((st.old_len + st.r - 1) / st.r.max(1)) as u64) } else { None };
+        }
+        for (si, slot) in self.sets.iter_mut().enumerate() {
+            if sdst == Some(si) {
+                let old = std::mem::replace(&mut slot.s, new_set::<K>(&cfg.set_hashers[si], 0));
+                let r = call(|| sut(|| drop(old)));
+                if r.result.is_err() {
+                    return Err("dropping the destination of an interrupted clone_from panicked".to_string());
+                }
+                slot.model.clear();
+                slot.countdown = None;
+                continue;
+            }
+            let r = call(|| {
+                let mut m = std::collections::BTreeMap::new();
+                for k in sut(|| slot.s.iter()) {
+                    m.insert(k.kv(), k.oid());
+                }
+                m
+            });
+            match r.result {
+                Ok(m) => slot.model = m,
+                Err(p) => return Err(format!("panic while reading set {}: {:?}", si, p)),
+            }
+            let st = slot.s.verif_state();
+            slot.countdown = if st.split && st.old_len > 0 { Some(((st.old_len + st.r - 1) / st.r.max(1)) as u64) } else { None };
+        }
+        let _ = ctx::take_errors();
+        Ok(())
+    }
+
+    /// Sorted contents of every collection as the collections themselves report them.
+    pub fn final_contents(&self) -> String {
+        let mut s = String::from("final:");
+        for slot in &self.maps {
+            let r = call(|| {
+                let mut v: Vec<(u32, u32)> = sut(|| slot.m.iter()).map(|(k, v)| (k.kv(), v.payload())).collect();
+                v.sort_unstable();
+                v
+            });
+            s.push_str(&format!(" m{:?}", r.result.unwrap_or_default()));
+        }
+        for slot in &self.sets {
+            let r = call(|| {
+                let mut v: Vec<u32> = sut(|| slot.s.iter()).map(|k| k.kv()).collect();
+                v.sort_unstable();
+                v
+            });
+            s.push_str(&format!(" s{:?}", r.result.unwrap_or_default()));
+        }
+        s
+    }
+
     /// Tracked elements only: the live objects are exactly those the models reference.
     /// `leak_check`: report live objects nobody references (off under fault injection).
     pub fn check_ledger(&self, op_index: usize, op_kind: &'static str, leak_check: bool) -> Vec<Anomaly> {
